@@ -1,6 +1,14 @@
-(** C13 — placeholder while the model is being built *)
-From IBC Require Import Lib.Bytes Handshake.Version Handshake.VersionFacts.
+(** C13 — Connection handshake safety and version negotiation.
+    Statements only; proofs are in Handshake/VersionFacts.v, Handshake/ModelThms.v, Handshake/WorldFacts.v. *)
+From IBC Require Import Lib.Bytes Lib.Dec Core.Height Handshake.Version Handshake.VersionFacts Handshake.Types
+     Handshake.Model Handshake.ModelFacts Handshake.ModelThms Handshake.World Handshake.WorldFacts.
+Local Open Scope N_scope.
 
+(** * version negotiation, for all lists (duplicates, empty feature sets, empty lists) *)
+
+(** PickVersion: the result's identifier occurs in both lists; its features are the features of the
+    (first acceptable) supported entry filtered by membership in the FIRST counterparty entry with that
+    identifier — as a set, the intersection of the two feature sets — and are not empty. *)
 Theorem C13_pick_version_contract sup cp v :
   pick_version sup cp = Some v ->
   exists s c,
@@ -11,3 +19,194 @@ Theorem C13_pick_version_contract sup cp v :
     v_feats v <> [].
 Proof. exact (pick_version_contract sup cp v). Qed.
 Print Assumptions C13_pick_version_contract.
+
+(** exact characterisation, including which supported entry wins (the first acceptable one) *)
+Theorem C13_pick_version_spec sup cp v :
+  pick_version sup cp = Some v <->
+  exists l1 s l2 c,
+    sup = l1 ++ s :: l2 /\ find_supported (v_id s) cp = Some c /\
+    v = mkV (v_id s) (feature_intersection (v_feats s) (v_feats c)) /\
+    (v_feats v <> [] \/ allow_nil (v_id s) = true) /\
+    Forall (fun x => ~ acceptable x cp) l1.
+Proof. exact (pick_version_spec sup cp v). Qed.
+Print Assumptions C13_pick_version_spec.
+
+Theorem C13_pick_version_fails_iff sup cp :
+  pick_version sup cp = None <-> Forall (fun x => ~ acceptable x cp) sup.
+Proof. exact (pick_version_none sup cp). Qed.
+Print Assumptions C13_pick_version_fails_iff.
+
+Theorem C13_feature_intersection src cp f :
+  In f (feature_intersection src cp) <-> In f src /\ In f cp.
+Proof. exact (feature_intersection_In src cp f). Qed.
+Print Assumptions C13_feature_intersection.
+
+Theorem C13_find_supported_first id sup s :
+  find_supported id sup = Some s <->
+  exists l1 l2, sup = l1 ++ s :: l2 /\ v_id s = id /\ Forall (fun x => v_id x <> id) l1.
+Proof. exact (find_supported_spec id sup s). Qed.
+Print Assumptions C13_find_supported_first.
+
+Theorem C13_is_supported_spec sup p :
+  is_supported sup p = true <->
+  exists s, find_supported (v_id p) sup = Some s /\
+            (v_feats p <> [] \/ allow_nil (v_id p) = true) /\ incl (v_feats p) (v_feats s).
+Proof. exact (is_supported_spec sup p). Qed.
+Print Assumptions C13_is_supported_spec.
+
+Theorem C13_verify_proposed_spec v p :
+  verify_proposed v p = true <->
+  v_id p = v_id v /\ (v_feats p <> [] \/ allow_nil (v_id p) = true) /\ incl (v_feats p) (v_feats v).
+Proof. exact (verify_proposed_spec v p). Qed.
+Print Assumptions C13_verify_proposed_spec.
+
+(** no identifier allows an empty feature set in this code base *)
+Theorem C13_no_nil_feature_sets id : allow_nil id = false.
+Proof. exact (allow_nil_false id). Qed.
+Print Assumptions C13_no_nil_feature_sets.
+
+(** what is picked is accepted by IsSupportedVersion against the counterparty's list (ConnOpenAck's
+    check), always; against the picker's own list when that has no duplicate identifier ... *)
+Theorem C13_picked_is_supported sup cp v :
+  pick_version sup cp = Some v ->
+  is_supported cp v = true /\ (NoDup (map v_id sup) -> is_supported sup v = true).
+Proof.
+  exact (fun H => conj (pick_version_supported_by_counterparty sup cp v H)
+                       (fun Hn => pick_version_supported_by_self sup cp v Hn H)).
+Qed.
+Print Assumptions C13_picked_is_supported.
+
+(** ... and not in general with duplicates in the picker's list (unreachable: the handlers always
+    pass GetCompatibleVersions(), a one-element list) *)
+Theorem C13_picked_is_supported_by_self_refuted :
+  exists sup cp v, pick_version sup cp = Some v /\ is_supported sup v = false.
+Proof. exact pick_version_supported_by_self_refuted. Qed.
+Print Assumptions C13_picked_is_supported_by_self_refuted.
+
+(** what ConnOpenTry negotiates from any counterparty list *)
+Theorem C13_negotiated_from_compatible cp v :
+  pick_version compatible_versions cp = Some v ->
+  v_id v = B "1" /\ v_feats v <> [] /\ incl (v_feats v) [order_ordered; order_unordered] /\
+  is_supported compatible_versions v = true /\ is_supported cp v = true.
+Proof. exact (pick_from_compatible cp v). Qed.
+Print Assumptions C13_negotiated_from_compatible.
+
+Theorem C13_validate_version_spec v :
+  validate_version v = true <->
+  all_space (v_id v) = false /\ (List.length (v_feats v) <= 100)%nat /\
+  forall f, In f (v_feats v) -> all_space f = false.
+Proof. exact (validate_version_spec v). Qed.
+Print Assumptions C13_validate_version_spec.
+
+(** * connection handshake safety, one chain, any oracle, all message lists *)
+
+(** OPEN only by ConnOpenAck on an INIT end or ConnOpenConfirm on a TRYOPEN end, and only if the
+    oracle accepted under the counterparty connection key exactly the end: state TRYOPEN (resp. OPEN),
+    client = our counterparty client, counterparty = (our client, our connection id, our prefix),
+    versions = our (new) single version list, delay period = ours. *)
+Theorem C13_open_requires_proof e s m id c' :
+  WF s ->
+  get_conn (step e s m) id = Some c' -> c_state c' = COpen ->
+  (forall c0, get_conn s id = Some c0 -> c_state c0 <> COpen) ->
+  exists c0 proof ph,
+    get_conn s id = Some c0 /\
+    c_client c' = c_client c0 /\ c_cp_client c' = c_cp_client c0 /\ c_cp_prefix c' = c_cp_prefix c0 /\
+    c_delay c' = c_delay c0 /\
+    ((c_state c0 = CInit /\
+      exists v, c_versions c' = [v] /\ is_supported (c_versions c0) v = true /\
+                m = MConnAck id (c_cp_conn c') v proof ph /\
+      e_verify e (c_client c') ph (c_cp_prefix c') (KConn (c_cp_conn c'))
+               (VConn (mkConn CTryOpen (c_cp_client c') (c_client c') id own_prefix (c_versions c') (c_delay c'))) proof = true)
+     \/
+     (c_state c0 = CTryOpen /\ c_cp_conn c' = c_cp_conn c0 /\ c_versions c' = c_versions c0 /\
+      m = MConnConfirm id proof ph /\
+      e_verify e (c_client c') ph (c_cp_prefix c') (KConn (c_cp_conn c'))
+               (VConn (mkConn COpen (c_cp_client c') (c_client c') id own_prefix (c_versions c') (c_delay c'))) proof = true)).
+Proof. exact (conn_open_requires_proof e s m id c'). Qed.
+Print Assumptions C13_open_requires_proof.
+
+(** a TRYOPEN end is stored only with a verified proof of the INIT end and carries the one version
+    PickVersion negotiates from the proven counterparty list *)
+Theorem C13_try_requires_proof e s client cpc cpn cpp cpv delay proof ph s' :
+  handle e s (MConnTry client cpc cpn cpp cpv delay proof ph) = Ok s' ->
+  exists v,
+    pick_version compatible_versions cpv = Some v /\
+    e_verify e client ph cpp (KConn cpn) (VConn (mkConn CInit cpc client [] own_prefix cpv delay)) proof = true /\
+    get_conn s' (conn_id (next_conn s)) = Some (mkConn CTryOpen client cpc cpn cpp [v] delay).
+Proof. exact (conn_try_requires_proof e s client cpc cpn cpp cpv delay proof ph s'). Qed.
+Print Assumptions C13_try_requires_proof.
+
+(** a connection never leaves OPEN: over any history an OPEN end is not changed at all *)
+Theorem C13_open_forever tr s id a :
+  WF s -> counters_below s (List.length tr) ->
+  get_conn s id = Some a -> c_state a = COpen -> get_conn (run s tr) id = Some a.
+Proof. exact (conn_open_forever tr s id a). Qed.
+Print Assumptions C13_open_forever.
+
+(** every TRYOPEN/OPEN end has exactly one version, over any history (given that initially) *)
+Theorem C13_single_negotiated_version tr s :
+  WF s -> counters_below s (List.length tr) -> single_version s -> single_version (run s tr).
+Proof. exact (open_connections_have_one_version tr s). Qed.
+Print Assumptions C13_single_negotiated_version.
+
+(** * localhost *)
+Theorem C13_localhost_handshake_refused e s cpc cpn cpp version delay cpv proof ph :
+  handle e s (MConnInit localhost_client cpc cpn cpp version delay) = Err 101 /\
+  handle e s (MConnTry localhost_client cpc cpn cpp cpv delay proof ph) = Err 201.
+Proof. exact (conj (localhost_conn_init_refused e s cpc cpn cpp version delay)
+                   (localhost_conn_try_refused e s cpc cpn cpp cpv delay proof ph)). Qed.
+Print Assumptions C13_localhost_handshake_refused.
+
+(** no history creates a connection end over the localhost client *)
+Theorem C13_no_localhost_connection_created tr s id b :
+  WF s -> counters_below s (List.length tr) ->
+  get_conn (run s tr) id = Some b -> c_client b = localhost_client ->
+  exists a, get_conn s id = Some a /\ c_client a = localhost_client.
+Proof. exact (no_localhost_connection_created tr s id b). Qed.
+Print Assumptions C13_no_localhost_connection_created.
+
+(** * channels open only on a connection with exactly one negotiated version listing the ordering *)
+Theorem C13_chan_init_requires_single_version e s port st order cpp cpc hops version app s' :
+  handle e s (MChanInit port st order cpp cpc hops version app) = Ok s' ->
+  exists hop conn v, hops = [hop] /\ get_conn s hop = Some conn /\ c_versions conn = [v] /\
+                     In (order_string order) (v_feats v) /\ (order = OOrdered \/ order = OUnordered).
+Proof. exact (chan_init_requires_single_version e s port st order cpp cpc hops version app s'). Qed.
+Print Assumptions C13_chan_init_requires_single_version.
+
+Theorem C13_chan_try_requires_single_version e s port st order cpp cpc hops version cpv proof ph app s' :
+  handle e s (MChanTry port st order cpp cpc hops version cpv proof ph app) = Ok s' ->
+  exists hop conn v, hops = [hop] /\ get_conn s hop = Some conn /\ c_state conn = COpen /\ c_versions conn = [v] /\
+                     In (order_string order) (v_feats v).
+Proof. exact (chan_try_requires_single_version e s port st order cpp cpc hops version cpv proof ph app s'). Qed.
+Print Assumptions C13_chan_try_requires_single_version.
+
+(** * two chains: the counterparty of an OPEN connection end stored the matching end *)
+Theorem C13_open_connection_has_matching_counterparty w id cA :
+  Inv w -> get_conn (w_st (wa w)) id = Some cA -> c_state cA = COpen -> c_client cA <> localhost_client ->
+  exists cB, get_conn (w_st (wb w)) (c_cp_conn cA) = Some cB /\
+             c_client cB = c_cp_client cA /\ c_cp_client cB = c_client cA /\ c_cp_conn cB = id /\
+             c_cp_prefix cB = own_prefix /\ c_versions cB = c_versions cA /\ c_delay cB = c_delay cA /\
+             (c_state cB = CTryOpen \/ c_state cB = COpen).
+Proof. exact (open_connection_has_matching_counterparty w id cA). Qed.
+Print Assumptions C13_open_connection_has_matching_counterparty.
+
+Theorem C13_world_invariant ops w :
+  Inv w -> wcounters_below w (List.length ops) -> Inv (wrun w ops).
+Proof. exact (wrun_inv ops w). Qed.
+Print Assumptions C13_world_invariant.
+
+(** non-vacuity *)
+Example C13_nonvacuous :
+  pick_version compatible_versions [mkV (B "2") [B "x"]; mkV (B "1") [order_unordered; B "ORDER_DAG"]]
+    = Some (mkV (B "1") [order_unordered]) /\
+  pick_version [mkV (B "1") [B "A"; B "B"; B "A"]] [mkV (B "1") []; mkV (B "1") [B "A"]] = None /\
+  is_supported compatible_versions (mkV (B "1") [order_ordered]) = true /\
+  WF genesis_chain /\ single_version genesis_chain /\
+  (exists s', handle (mkEnv (fun _ => true) (fun _ => true) (fun _ => true) (fun _ _ _ _ _ _ => true)) genesis_chain
+                (MConnInit (B "07-tendermint-0") (B "07-tendermint-0") [] (B "ibc") None 0) = Ok s').
+Proof.
+  split; [vm_compute; reflexivity|]. split; [vm_compute; reflexivity|]. split; [vm_compute; reflexivity|].
+  split; [exact genesis_WF|]. split.
+  - exact (fun id a H _ => match genesis_get_conn id a H with conj _ E => ex_intro _ default_version (f_equal c_versions E) end).
+  - vm_compute. eexists. reflexivity.
+Qed.
